@@ -97,14 +97,19 @@ def rule_r3(facts, rep, rid="C05-R3"):
         rep.violation(rid, w.def_ + "|decides-with-is_ref_url", "table-cell link printer does not use model::is_ref_url", w.loc)
     # shape of is_ref_url: !(lower(url).starts_with(lit) || ...)
     b = isref.body
-    e = b.get("e") if b.get("k") == "block" else b
+    from .common import through_lets
+    ci = ctx(isref)
+    e = through_lets(ci, b.get("e") if b.get("k") == "block" else b)
     lits = []
     good = e is not None and e.get("k") == "unary" and e.get("op") == "!"
     if good:
         from .panics import _disjuncts
-        for d in _disjuncts(e["e"]):
+        for d in _disjuncts(through_lets(ci, e["e"])):
+            d = through_lets(ci, d)
             if d.get("k") == "mcall" and d["name"] == "starts_with" and d["args"] and d["args"][0].get("k") == "lit":
-                recv = d["recv"]
+                recv = through_lets(ci, d["recv"])
+                while recv is not None and recv.get("k") in ("addrof", "unary") or (recv is not None and recv.get("k") == "mcall" and recv["name"] in ("as_str", "as_ref", "deref")):
+                    recv = through_lets(ci, recv.get("e") or recv.get("recv"))
                 if recv.get("k") == "mcall" and recv["name"] in ("to_lowercase", "to_ascii_lowercase"):
                     lits.append(d["args"][0]["v"][2:])
                     continue
